@@ -58,7 +58,7 @@ def expected(kv):
     n, a = A
     op = kv.get("op", "none")
     p = op.split(":")
-    if p[0] in ("add", "sub", "addassign", "subassign"):
+    if p[0] in ("add", "sub", "addassign", "subassign", "subassignref"):
         B = build_dense(kv["b"], kv.get("bw", "0:"))
         if B is None:
             return "B panic"
